@@ -53,6 +53,7 @@ pub fn run_case(c: &Value) -> Value {
             let d = dt_at(gi(c, "dn"), 86_399, 999_999_999, 0);
             read_obs(d.as_ymd(), d.weekday(), d.day_of_year())
         }
+        "cron_parse" | "cron_hist" => crate::cron::run_case(c),
         _ => {
             // every other operation: operands given as abstract values, executed by ops::exec
             let a = crate::ops::val_from_json(&c["a"]);
